@@ -534,6 +534,7 @@ static void exec_line(char *line)
                 fprintf(OUT, "ret=%d calls=%lu\n", ret, os_calls - c0);
             }
             else if (!strcmp(op, "p.limit") && nt == 3) { tinyjambu_prng_set_reseed_limit(&P[i], strtoul(tok[2], 0, 10)); fprintf(OUT, "%s\n", "ok"); }
+            else if (!strcmp(op, "p.dirty") && nt == 3) { bytes_t b = parse_hex(tok[2]); memcpy(&P[i], b.p, b.n < sizeof(P[i]) ? b.n : sizeof(P[i])); free(b.p); fprintf(OUT, "%s\n", "ok"); }
             else if (!strcmp(op, "p.free") && nt == 2) { tinyjambu_prng_free(&P[i]); fprintf(OUT, "%s\n", "ok"); }
             else if (!strcmp(op, "p.dump") && nt == 2) dump_prng(i);
             else if (!strcmp(op, "p.pokerc") && nt == 3) {
